@@ -173,14 +173,14 @@ theorem inv_commit {c : Cbuf} (hi : Inv c) (got : List UInt8) (hn : 0 < got.leng
   generalize hnx : (iDst + 1) % (c.size + 1) = nx at hnext
   by_cases hwrap : n + nrepl > c.size - c.used
   · by_cases hover : n > c.size - c.used
-    · refine ⟨by simp [commit, hi.dsize], hi.spos, hi.smin, hi.smax, hi.alloc, ?_, ?_, ?_, ?_, ?_, ?_, ?_⟩
+    · refine ⟨by simp [commit, hi.dsize], hi.spos, hi.smin, hi.smax, hi.alloc, ?_, ?_, ?_, ?_, ?_, ?_, ?_, hi.mpos⟩
       all_goals simp only [commit, hnrepl, hnx, hwrap, hover, decide_true, if_true, Bool.or_true]
       all_goals first | omega | simp
-    · refine ⟨by simp [commit, hi.dsize], hi.spos, hi.smin, hi.smax, hi.alloc, ?_, ?_, ?_, ?_, ?_, ?_, ?_⟩
+    · refine ⟨by simp [commit, hi.dsize], hi.spos, hi.smin, hi.smax, hi.alloc, ?_, ?_, ?_, ?_, ?_, ?_, ?_, hi.mpos⟩
       all_goals simp only [commit, hnrepl, hnx, hwrap, hover, decide_true, if_true, if_false, Bool.or_true]
       all_goals first | omega | simp
   · have hover : ¬ n > c.size - c.used := by omega
-    refine ⟨by simp [commit, hi.dsize], hi.spos, hi.smin, hi.smax, hi.alloc, ?_, ?_, ?_, ?_, ?_, ?_, ?_⟩
+    refine ⟨by simp [commit, hi.dsize], hi.spos, hi.smin, hi.smax, hi.alloc, ?_, ?_, ?_, ?_, ?_, ?_, ?_, hi.mpos⟩
     all_goals simp only [commit, hnrepl, hnx, hwrap, hover, decide_false, if_false, Bool.or_false, Bool.false_eq_true]
     all_goals first | omega | exact hw
 
